@@ -286,3 +286,23 @@ def c09_parse(r, seed, tier, model_ok):
         mo = vlib.driver("driver", ["P\t" + vlib.cps(t) for t in allt])
         bad2 = [dict(program=t, impl=a.split(" CODES ")[0][:300], model=b[:300], which=["parse+spans"]) for t, a, b in zip(allt, alla, mo) if a.split(" CODES ")[0] != b and not a.startswith("HOST")]
         r.slice("parse_vs_model", len(allt), len(set(allt)), [allt[-1]], dict(), "the same texts through Lex.parse_text: tree with every node's (line, start, end), or the rejection span", bad2[:50])
+
+
+def c01_witness(r, seed, tier, model_ok):
+    """directed search used when a C01 obligation broke and no failing input has been found: the code points (Python tables) and UTF-16 units
+    (TypeScript tables) on which the regenerated normaliser and the specification's consonants differ, computed inside Coq (SpecC01.bad_points
+    over all 65,536 units; WitC01.v).  The TypeScript port cannot be run in this sandbox: its witnesses are characters to try with the port."""
+    import re as _re
+    rc, out = vlib.sh('timeout 900 coqc -Q src "" -Q Gen "" src/WitC01.v 2>&1', cwd=vlib.COQ, timeout=1000)
+    lists = _re.findall(r"=\s*(.*?)\s*:\s*list N", out, _re.S)          # "43365 :: nil" / "nil" / "[43365]" depending on open notations
+    if rc != 0 or len(lists) != 2: r.problem("harness", "witness search WitC01.v did not run: " + out[-300:]); return
+    bad = []
+    for which, text in zip(("pbhhg_py/parse.py normalize_char", "pbhhg_js/src/parse.ts normalizeChar"), lists):
+        for c in sorted(int(x) for x in _re.findall(r"\d+", text))[:20]:
+            got = ""
+            if which.startswith("pbhhg_py"):
+                try:
+                    parse, _, _, _ = vlib.mods(); got = " -> " + repr("".join(parse.normalize(chr(c))))
+                except Exception as e: got = f" -> {type(e).__name__}"
+            bad.append(dict(program=f"the character U+{c:04X} {chr(c)!r}", impl=f"{which}{got} (regenerated table, coq/Gen)", model="the specification's consonants for that letter (SpecC01.spec_char)", which=["table-witness"]))
+    r.slice("table_witness_search", 2 * 65536, 2 * 65536, [], dict(witnesses=len(bad)), "on a broken C01 obligation: every UTF-16 unit through the regenerated Python and TypeScript normalisers vs the specification, inside Coq", bad)
